@@ -23,6 +23,7 @@ import (
 	gobig "math/big"
 	mrand "math/rand"
 	"os"
+	"strings"
 	"time"
 
 	"verifharness/hx"
@@ -119,6 +120,9 @@ func main() {
 		record(a, res)
 	case "large":
 		large(a, res)
+	case "groups":
+		groups(a)
+		return
 	default:
 		hx.Fatal("unknown sub-command %q", sub)
 	}
@@ -144,6 +148,7 @@ type row struct {
 	Bits   int64           `json:"bits"`
 	Gp     int64           `json:"gp"`
 	Gq     int64           `json:"gq"`
+	Built  bool            `json:"built"`
 	G      int64           `json:"g"`
 	H      int64           `json:"h"`
 	E0     int64           `json:"e0"`
@@ -198,6 +203,64 @@ func (rp *replayer) bad(fn, what string, args hx.M) {
 func compact(m hx.M) string {
 	b, _ := json.Marshal(m)
 	return string(b)
+}
+
+// nt groups --n MAX: what zkproof.BuildGroup makes of every safe prime below MAX, as the TLA+ module GroupGens (the
+// generators are derived from the prime by hashing since c2894e6; the specification takes them as given and checks the
+// contract: two different elements of order (P-1)/2)
+func groups(a *hx.Args) {
+	max := int64(a.N)
+	if max <= 0 {
+		max = 256
+	}
+	var b strings.Builder
+	b.WriteString("---------------------------- MODULE GroupGens ----------------------------\n")
+	b.WriteString("\\* generated by `nt groups` from zkproof.BuildGroup of the tree under check: safe prime |-> <<built, G, H>>\n")
+	b.WriteString("EXTENDS TLC\n")
+	b.WriteString("CodeGens == (")
+	first := true
+	for P := int64(5); P < max; P += 2 {
+		if !(isPrimeBig(P) && isPrimeBig((P-1)/2)) {
+			continue
+		}
+		built, g, h := buildGroupTimed(P)
+		if !first {
+			b.WriteString(" @@ ")
+		}
+		first = false
+		fmt.Fprintf(&b, "(%d :> <<%s, %d, %d>>)", P, map[bool]string{true: "TRUE", false: "FALSE"}[built], g, h)
+	}
+	b.WriteString(")\n=============================================================================\n")
+	if err := os.WriteFile(a.Out, []byte(b.String()), 0o644); err != nil {
+		hx.Fatal("write: %v", err)
+	}
+}
+
+// buildGroupTimed: BuildGroup in a goroutine (it did not return for P = 5 once, D57); a call that does not return within 10 s
+// counts as not built, with generators -1
+func buildGroupTimed(P int64) (bool, int64, int64) {
+	type out struct {
+		ok   bool
+		g, h int64
+	}
+	ch := make(chan out, 1)
+	go func() {
+		var o out
+		hx.Try(func() {
+			g, ok := zkproof.BuildGroup(bi(P))
+			o.ok = ok
+			if ok {
+				o.g, o.h = num(g.G), num(g.H)
+			}
+		})
+		ch <- o
+	}()
+	select {
+	case o := <-ch:
+		return o.ok, o.g, o.h
+	case <-time.After(10 * time.Second):
+		return false, -1, -1
+	}
 }
 
 func replay(a *hx.Args, res *hx.Result) {
@@ -592,13 +655,21 @@ func (rp *replayer) safeGen(r *row) {
 }
 
 func (rp *replayer) group(r *row) {
-	if r.G == 0 || r.H == 0 {
-		rp.res.Count("gexp:degenerate-base-skipped") // e.g. P = 11 divides 0x41424344
+	args := hx.M{"P": r.Gp}
+	if !r.Built {
+		// no two different elements of order (P-1)/2 other than 1 exist (P = 5): BuildGroup must refuse - and return
+		ok, g, _ := buildGroupTimed(r.Gp)
+		rp.res.Eval(fmt.Sprintf("BuildGroup/%d/refuse", r.Gp))
+		switch {
+		case g == -1:
+			rp.bad("BuildGroup", "did not return within 10 s", args)
+		case ok:
+			rp.bad("BuildGroup", "built a group although the subgroup of squares has no two generators", args)
+		}
 		return
 	}
 	var g zkproof.Group
 	var ok bool
-	args := hx.M{"P": r.Gp}
 	if !rp.call("BuildGroup", args, func() { g, ok = zkproof.BuildGroup(bi(r.Gp)) }) {
 		return
 	}
@@ -1030,6 +1101,10 @@ func record(a *hx.Args, res *hx.Result) {
 	below, wrongBelow := 0, 0
 	for P := int64(5); P < b.group; P += 2 {
 		if !(isPrimeBig(P) && isPrimeBig((P-1)/2)) {
+			continue
+		}
+		if built, _, _ := buildGroupTimed(P); !built { // (timed: the call did not return for P = 5 once, D57)
+			rc.emit(hx.M{"f": "gexp", "gp": P, "gq": (P - 1) / 2, "built": false, "g": 0, "base": "g", "e0": 0, "st": []int64{}, "r": []int64{}, "kept": true, "panic": false})
 			continue
 		}
 		g, ok := zkproof.BuildGroup(bi(P))
